@@ -49,6 +49,15 @@ def step (d : DS) (line : String) : DS × String :=
     (match parseBytes data with
      | some data => (d, s!"ok {connStr (handleUni (St.fresh data))}")
      | none => (d, "bad-op"))
+  | ["phdr", data] =>
+    (match parseBytes data with
+     | some data =>
+       (d, match parseHeaderFrames H staticTable (data.length + 2) (St.fresh data) with
+           | .ok _ _ => "ok"
+           | .err e _ => s!"err {errTag e}"
+           | .panic => "panic"
+           | .hang => "hang")
+     | none => (d, "bad-op"))
   | ["req", k, data] =>
     (match parseNat k, parseBytes data with
      | some k, some data =>
